@@ -60,6 +60,8 @@ SimNext ==
   \/ \E t \in DOMAIN task : ArmLaunchFail(t) /\ Lab([c |-> "FailLaunch", t |-> t]) /\ sig' = <<"FailLaunch">>
   \/ \E w \in DOMAIN srv : depth >= gate.lose /\ LoseWorker(w, TRUE) /\ Lab([c |-> "Lose", w |-> w, reason |-> "connection"]) /\ sig' = <<"Lose", SigLose(w, TRUE)>>
   \/ \E w \in DOMAIN srv : depth >= gate.lose /\ LoseWorker(w, FALSE) /\ Lab([c |-> "Lose", w |-> w, reason |-> "idle"]) /\ sig' = <<"Lose", SigLose(w, FALSE)>>
+  \/ ConnectWorker /\ Lab([c |-> "Connect", w |-> LateSeq[Len(LateSeq) - budget.connects + 1]])
+       /\ sig' = <<"Connect", Bag(DOMAIN task, TS), [w \in DOMAIN srv |-> <<srv[w].assigned # {}, srv[w].prefilled # {}>>]>>
 
 SimSpec == SimInit /\ [][SimNext]_<<mvars, depth, lastAct, gate, sig>>
 
